@@ -45,11 +45,50 @@ type Case struct {
 	MOTD      []string `json:"motd"`
 	PQFirst   bool     `json:"pq_before_sid"`
 	Sched     []int    `json:"sched"`
+	// Retry (callback ok only): before the judged exchange the same Session runs an exchange against another
+	// challenge during which the password callback fails for every address (the user aborts the prompt); that
+	// exchange must fail without a ;PR, and the judged exchange afterwards must be answered as if nothing had
+	// happened (the callback is asked again).
+	Retry      bool   `json:"retry,omitempty"`
+	Challenge2 string `json:"challenge2,omitempty"`
+	// PwLen / ChLen > len: the password / challenge is repeated cyclically to that many bytes (long pass-phrases)
+	PwLen int `json:"pw_len,omitempty"`
+	ChLen int `json:"ch_len,omitempty"`
+}
+
+func cyc(unit []byte, n int) []byte {
+	if n <= len(unit) || len(unit) == 0 {
+		return unit
+	}
+	out := make([]byte, n)
+	for i := 0; i < n; i += copy(out[i:], unit) {
+	}
+	return out
+}
+
+// lookup is what the password callback answers for addr in case c (shared by callback and expectation).
+func lookup(c Case, addr string) (pw []byte, fails bool) {
+	if addr == fbb.AddressFromString(c.Call).Addr {
+		return c.Password, c.Callback == "error"
+	}
+	for _, a := range c.Aux {
+		if fbb.AddressFromString(a.Addr).Addr == addr {
+			return a.Password, a.Err
+		}
+	}
+	return nil, false
 }
 
 var discard = log.New(io.Discard, "", 0)
 
 func run(c Case) (sig, msg string) {
+	c.Password = cyc(c.Password, c.PwLen)
+	if ch := cyc([]byte(c.Challenge), c.ChLen); len(ch) > 0 {
+		if ch[len(ch)-1] == ' ' {
+			ch[len(ch)-1] = '#' // the domain is challenges without edge spaces (the line reader trims them)
+		}
+		c.Challenge = string(ch)
+	}
 	var script bytes.Buffer
 	for _, m := range c.MOTD {
 		script.WriteString(m + "\r")
@@ -68,27 +107,37 @@ func run(c Case) (sig, msg string) {
 		s.AddAuxiliaryAddress(fbb.AddressFromString(a.Addr))
 	}
 	cbErr := errors.New("user aborted password prompt")
+	aborting := false // the user aborts every password prompt (first exchange of a Retry case)
 	if c.Callback != "none" {
 		s.SetSecureLoginHandleFunc(func(addr fbb.Address) (string, error) {
-			if addr.Addr == fbb.AddressFromString(c.Call).Addr {
-				if c.Callback == "error" {
-					return "", cbErr
-				}
-				return string(c.Password), nil
+			pw, fails := lookup(c, addr.Addr)
+			if fails || aborting {
+				return "", cbErr
 			}
-			for _, a := range c.Aux {
-				if fbb.AddressFromString(a.Addr).Addr == addr.Addr {
-					if a.Err {
-						return "", cbErr
-					}
-					return string(a.Password), nil
-				}
-			}
-			return "", nil
+			return string(pw), nil
 		})
 	}
 	var xerr error
 	var psig, pmsg string
+	if c.Retry && c.Callback == "ok" {
+		aborting = true
+		first := stream.NewScripted([]byte("[WL2K-5.0-B2FWIHJM$]\r;PQ: "+c.Challenge2+"\rCMS via test >\rFQ\r"), c.Sched)
+		var ferr error
+		hung, kind := harness.Watch(60*time.Second, func() {
+			psig, pmsg = harness.Catch(func() { _, ferr = s.Exchange(first) })
+		})
+		if hung {
+			harness.Record("hang:exchange-"+kind, c, "Exchange did not return")
+			harness.ExitHung()
+		}
+		if psig != "" {
+			return psig, pmsg
+		}
+		if ferr == nil || bytes.Contains(first.Out, []byte(";PR")) {
+			return "callback-error-ignored", fmt.Sprintf("first exchange of a retry case: the password callback failed but Exchange returned %v and wrote %q", ferr, first.Out)
+		}
+		aborting = false
+	}
 	hung, kind := harness.Watch(60*time.Second, func() {
 		psig, pmsg = harness.Catch(func() { _, xerr = s.Exchange(conn) })
 	})
@@ -132,8 +181,8 @@ func run(c Case) (sig, msg string) {
 	fw := ";FW: " + fbb.AddressFromString(c.Call).Addr
 	for _, a := range c.Aux {
 		addr := fbb.AddressFromString(a.Addr).Addr
-		if !a.Err && len(a.Password) > 0 {
-			fw += " " + addr + "|" + secure.Response(c.Challenge, string(a.Password))
+		if pw, fails := lookup(c, addr); !fails && len(pw) > 0 {
+			fw += " " + addr + "|" + secure.Response(c.Challenge, string(pw))
 		} else {
 			fw += " " + addr
 		}
@@ -211,7 +260,18 @@ func genCase(t *rapid.T) Case {
 	if rapid.IntRange(0, 2).Draw(t, "small") == 0 {
 		c.Password = smallValueSuffix(c.Challenge, c.Password, rapid.IntRange(4, 7).Draw(t, "digits"))
 	}
+	// long pass-phrases and challenges: lengths around 56/57 (64 bytes with an 8 digit challenge), 64, 128, and beyond
+	if len(c.Password) > 0 && rapid.IntRange(0, 5).Draw(t, "pw_long") == 0 {
+		c.PwLen = rapid.SampledFrom([]int{40, 55, 56, 57, 58, 63, 64, 65, 100, 119, 120, 121, 127, 128, 129, 300, 4096}).Draw(t, "pw_len")
+	}
+	if rapid.IntRange(0, 9).Draw(t, "ch_long") == 0 {
+		c.ChLen = rapid.SampledFrom([]int{32, 56, 64, 65, 128, 129, 300}).Draw(t, "ch_len")
+	}
 	c.Callback = rapid.SampledFrom([]string{"ok", "ok", "ok", "ok", "error", "none"}).Draw(t, "callback")
+	if c.Callback == "ok" && rapid.IntRange(0, 3).Draw(t, "retry") == 0 {
+		c.Retry = true
+		c.Challenge2 = rapid.StringMatching(`[0-9]{8}`).Draw(t, "challenge2")
+	}
 	naux := rapid.SampledFrom([]int{0, 1, 1, 2, 3, 4}).Draw(t, "naux")
 	pool := []string{"LA9XYZ", "EMCOMM-1", "TAC1", "N0AUX", "SK0QO", "tac2"}
 	for i := 0; i < naux; i++ {
@@ -237,6 +297,12 @@ func genCase(t *rapid.T) Case {
 		}
 		c.Aux = append(c.Aux, a)
 	}
+	if rapid.IntRange(0, 5).Draw(t, "own_aux") == 0 {
+		// the station's own call is also listed as an auxiliary address (the callback answers it like the primary)
+		own := Aux{Addr: c.Call, Password: c.Password, Err: c.Callback == "error"}
+		k := rapid.IntRange(0, len(c.Aux)).Draw(t, "own_pos")
+		c.Aux = append(c.Aux[:k:k], append([]Aux{own}, c.Aux[k:]...)...)
+	}
 	for i := rapid.IntRange(0, 2).Draw(t, "nmotd"); i > 0; i-- {
 		c.MOTD = append(c.MOTD, rapid.StringMatching(`[A-Za-z0-9*][ -=?-~]{0,40}[A-Za-z0-9.]`).Draw(t, "motd"))
 	}
@@ -249,6 +315,17 @@ func TestProp(t *testing.T) {
 		sig, msg := run(c)
 		harness.Eval()
 		harness.Label("callback:" + c.Callback)
+		if c.Retry {
+			harness.Label("history:retry-after-aborted-password-prompt")
+		}
+		if c.PwLen > 56 || c.ChLen > 56 {
+			harness.Label("long-credentials(challenge+password > 64 bytes)")
+		}
+		for _, a := range c.Aux {
+			if strings.EqualFold(a.Addr, c.Call) {
+				harness.Label("own-call-also-auxiliary")
+			}
+		}
 		if len(c.Aux) > 0 {
 			harness.NonTrivial(harness.Hash(fmt.Sprintf("%+v", c)))
 			harness.Label("aux>=1")
